@@ -2,7 +2,7 @@ from common import KERNEL, CORR
 
 PROP = dict(
     level="proof",
-    generators=["C04"],
+    generators=["C04", "C18"],   # the AMF0 / metadata ops too: a peer's metadata message goes through that reader
     trusted_base=[
         KERNEL, CORR,
         "Model/RtmpServer.lean is hand-written from pkg/rtmp/server_session.go, handshake.go, stream.go, message_packer.go (server side) on top of Model/Chunk.lean "
